@@ -541,6 +541,8 @@ def eq(ex, a, b):
                     acc = and_(ex, acc, eq(ex, ca.items[k_], cb.items[k_]))
                 return acc
             ka = ca.sym.kind if ca.sym is not None else cb.sym.kind
+            if ca.sym is not None and cb.sym is not None and ca.sym.kind.name != cb.sym.kind.name:
+                raise OutOfSubset(f'== between dicts of different kinds ({ca.sym.kind.name} / {cb.sym.kind.name})')
             return Sym(K.Bool, map_eq(ex, dict_to_map(ex, ca, ka), dict_to_map(ex, cb, ka)))
         return False
     if isinstance(a, Ref) or isinstance(b, Ref):
